@@ -341,7 +341,10 @@ impl LightClientProtocol {
         let new_total_difficulty = new_prove_state.get_last_header().total_difficulty();
         if new_total_difficulty > old_total_difficulty {
             let reorg_last_headers = new_prove_state.get_reorg_last_headers();
-            if reorg_last_headers.is_empty() {
+            // - `None`: the chain is not reorganized.
+            // - `Some(None)`: the chain is reorganized but no remembered header is in the new chain.
+            // - `Some(Some(number))`: the chain is reorganized after the block `number`.
+            let fork_number_opt = if reorg_last_headers.is_empty() {
                 let prev_last_header_number: BlockNumber = prev_last_header.raw().number().unpack();
                 // If previous last header is block#1, that means there are no previous last n
                 // headers, so we could NOT distinguish whether the block#1 is a fork block or not.
@@ -357,6 +360,41 @@ impl LightClientProtocol {
                     }
                     self.storage.rollback_to_block(1);
                     matched_blocks.clear();
+                    None
+                } else {
+                    // When only a few blocks are missing, the request starts from a remembered
+                    // header, and the response has no reorg headers even if the chain is
+                    // reorganized: compare the new headers with the remembered headers.
+                    let old_last_headers: HashMap<_, _> = self
+                        .storage
+                        .get_last_n_headers()
+                        .into_iter()
+                        .chain(Some((
+                            prev_last_header_number,
+                            prev_last_header.calc_header_hash(),
+                        )))
+                        .collect();
+                    let new_last_headers = new_prove_state
+                        .get_last_headers()
+                        .iter()
+                        .chain(Some(new_prove_state.get_last_header().header()));
+                    let is_reorganized = new_last_headers.clone().any(|header| {
+                        old_last_headers
+                            .get(&header.number())
+                            .map(|hash| hash != &header.hash())
+                            .unwrap_or(false)
+                    });
+                    if is_reorganized {
+                        Some(new_last_headers.rev().find_map(|header| {
+                            let number = header.number();
+                            old_last_headers
+                                .get(&number)
+                                .filter(|hash| *hash == &header.hash())
+                                .map(|_| number)
+                        }))
+                    } else {
+                        None
+                    }
                 }
             } else {
                 let old_last_headers: HashMap<_, _> =
@@ -374,6 +412,9 @@ impl LightClientProtocol {
                         })
                         .unwrap_or_default()
                 });
+                Some(fork_number)
+            };
+            if let Some(fork_number) = fork_number_opt {
                 if let Some(to_number) = fork_number {
                     debug!("fork to number: {}", to_number);
                     let mut matched_blocks = self.peers.matched_blocks().write().expect("poisoned");
